@@ -56,7 +56,7 @@ func vdSaveTree(ctx context.Context, up restic.BlobSaver, nodes []*vdNode) (rest
 	tw := data.NewTreeWriter(up)
 	for _, n := range ns {
 		dn := &data.Node{
-			Name: n.Name, Type: n.Type, Mode: n.Mode, ModTime: n.MTime, AccessTime: n.MTime, ChangeTime: n.MTime,
+			Name: n.Name, Type: n.Type, Mode: n.Mode, ModTime: n.MTime, AccessTime: n.MTime.Add(time.Hour), ChangeTime: n.MTime.Add(2 * time.Hour),
 			UID: n.UID, GID: n.GID, LinkTarget: n.Link, Device: n.Device, Inode: n.Inode, Links: 1,
 		}
 		switch n.Type {
